@@ -197,5 +197,36 @@ func checkC03(e *RunEnv) *CheckResult {
 			return c03Invariant(nil, n.Abs(), nil)
 		},
 	}
-	return runSpec(e, spec, nil)
+	res := runSpec(e, spec, nil)
+	// second exploration: one file cycling through three contents (stage, commit, go back to an earlier content,
+	// stage something else before committing): an object that an older commit still needs must never go away
+	cyc := &Spec{
+		Seeds: []Seed{{"S0", seedS0()}},
+		Depth: e.pick(6, 8),
+		Steps: func(n *Node) []Step {
+			st := stateTags(n.Abs())
+			var steps []Step
+			for _, x := range []string{"content A\n", "content B\n", "content C\n"} {
+				steps = append(steps, Seq(Write("a", x), Run("add", "a")).WithTags(st...))
+			}
+			steps = append(steps, Run("commit", "-m", "m").WithTags(st...), Run("reset", "--soft", "HEAD@{1}").WithTags(st...))
+			return steps
+		},
+		CheckTrans: spec.CheckTrans,
+	}
+	res2 := runSpec(e, cyc, nil)
+	if replayOnly() {
+		return res
+	}
+	res.Violations = append(res.Violations, res2.Violations...)
+	for _, k := range []string{"states", "transitions", "traces_validated_against_impl", "evaluations", "distinct_nontrivial", "probes"} {
+		a, _ := res.Coverage[k].(int)
+		b, _ := res2.Coverage[k].(int)
+		res.Coverage[k] = a + b
+	}
+	res.Coverage["content_cycling_states"] = res2.Coverage["states"]
+	if ex, _ := res2.Coverage["exhaustive"].(bool); !ex {
+		res.Coverage["exhaustive"] = false
+	}
+	return res
 }
